@@ -85,6 +85,8 @@ class Contract:
     self.setup = None                  # callable(exec, ctx): extra env set-up
     self.local_kinds = {}              # local variable name -> kind
     self.ghost_vars = {}               # ghost variable -> init(ctx) -> wrapper
+    self.guarded = {}                  # state field -> ghost lock counter that must be held
+    self.cls_param = None              # classmethod: name of the record class bound to `cls`
     self.modifies_self = []            # fields of `self` a method may change
     self.may_raise_other = False       # callers must expect unlisted exceptions
 
